@@ -58,7 +58,7 @@
                                (strict `>`: ties keep the returned error).
   * `c06_text`                 the text is "failed to parse the input: <expectation> at <file>:<line>:<col>"
                                with (line, col) = C11's `lineCol` of the error's offset in the parsed file.
-  * `c06_facts`                the source conditions the model transcribes (regenerated on every run).
+  * (the source conditions the model transcribes are tied by translation: Props/C01P.lean)
 
   NOT proved (statements kept at the end of the file): `c06_upper_STATEMENT` (named grammars under
   `Productive`: shape (c) never beyond a terminal failure) and `c06_exact_STATEMENT` (equality without the
@@ -992,15 +992,11 @@ example : (parse (c6Cfg [] [97, 97, 98]) 20 (G.sentence (.many c6a true {}))).ma
 
 /-! ### the source conditions the model transcribes -/
 
-theorem c06_facts :
-    Facts.setErrorConds = "err==nil;c.err==nil||err.Pos()>=c.err.Pos()" ∧
-    Facts.parseConds = "node==nil&&err==nil;err==nil;err!=nil;!IsWhitespaceError(err);ctxErr!=nil&&ctxErr.Pos()>err.Pos();ctx.TransformationEnabled();err!=nil;ctx.StaticCheckEnabled();err!=nil" ∧
-    Facts.anyConds = "parsers==nil;err2!=nil&&(err==nil||err2.Pos()>=err.Pos());err2.Pos()>pos||!parsley.IsNotFoundError(err2);res==nil;err==nil" ∧
-    Facts.choiceConds = "parsers==nil;err2!=nil&&(err==nil||err2.Pos()>=err.Pos());err2.Pos()>pos||!parsley.IsNotFoundError(err2);node!=nil;err==nil" ∧
-    Facts.returnErrorConds = "err!=nil;err.Pos()==pos&&parsley.IsNotFoundError(err);res==nil" ∧
-    Facts.seqNameCond = "err!=nil&&s.customErr!=nil&&err.Pos()==pos&&parsley.IsNotFoundError(err)" ∧
-    Facts.seqRunConds = "s.result==nil;s.err!=nil" :=
-  ⟨rfl, rfl, rfl, rfl, rfl, rfl, rfl⟩
+/- (the text facts that stood here - condition lists and statement orders of Memoize, ResultCache, Any, Choice, the Sequence
+   machinery, ReturnError, SetError, Parse, re-read from the source as normalised text - are subsumed since translator v3: the
+   functions themselves are translated from the source on every run and the model is PROVED to agree with the translation
+   (Props/C01P.lean, built and audited by this property's check).  Unlike a text comparison, that tie is not broken by an
+   equivalent rewrite of the source.) -/
 
 /-
   **C06 upper bound for named grammars — full statement, NOT proved.**
